@@ -28,6 +28,9 @@ from pvc import src as S, kern as K, ev as E, classes as CL, symdict as SD
 from pvc.val import *  # noqa
 from pvc import val as V
 
+# property-level native oracle used as the replay of refuted obligations that carry no model-specific replay
+FALLBACK_REPLAY = {"handler": "bounded_any", "input": {"what": "toolbox_ops"}, "expected": "restructuring tools keep referential integrity, other elements and results"}
+
 TB = "pandapipes.toolbox"
 CR = "pandapipes.create"
 
